@@ -599,7 +599,7 @@ def rule_formatsafe(ctx):
 
 
 RULES = [
-    ("C10.FORMATSAFE", 3, rule_formatsafe),
+    ("C10.FORMATSAFE", 1, rule_formatsafe),
     ("C10.GRAMMAR", 3, rule_grammar),
     ("C10.SPLITSAFE", 5, rule_splitsafe),
     ("C10.EXC", 9, rule_exc),
